@@ -113,7 +113,7 @@ def exec_read(c):
     elif o["src"] == 1:
         src = io.BytesIO(data)
     else:
-        src = os.path.join(scratch(), "f%d.swc" % lib.vid(c))
+        src = os.path.join(scratch(), "neuron.swc")
         with open(src, "wb") as f:
             f.write(data)
     kw = dict(sort_nodes=(o["mode"] == 0), reset_index=(o["mode"] == 1), encoding=o["enc"])
@@ -187,7 +187,7 @@ def exec_roundtrip(c):
     kw = dict(id_offset=c["off"], comments=bool(c["wc"]), source=(False if src == "" else (True if src == "Unknown" else src)))
     before_comments = list(t.comments)
     if c["kind"] == 2:
-        p = os.path.join(scratch(), "rt%d.swc" % lib.vid(c))
+        p = os.path.join(scratch(), "neuron.swc")
         try:
             t.to_swc(p, **kw)
             text = open(p, encoding="utf-8").read()
@@ -242,7 +242,7 @@ def exec_roundtrip_big(c):
     t = mk_rt_tree(c)
     kw = dict(id_offset=c["off"], source=False)
     if c["kind"] == 2:
-        p = os.path.join(scratch(), "rtb%d.swc" % lib.vid(c))
+        p = os.path.join(scratch(), "neuron.swc")
         try:
             t.to_swc(p, **kw)
             text = open(p, encoding="utf-8").read()
